@@ -230,6 +230,27 @@ class Analyzer:
         c = fn.canon(pl)
         if not c['p']:
             return self.ev_place(c, depth + 1)
+        # a projection of an aggregate that was built in this function (`(x as Ok).0.1` of `Ok((a, b))`, possibly
+        # through `?`): the value is the operand that was put there, if there is exactly one candidate
+        if all(isinstance(q, dict) and ('f' in q or 'down' in q) for q in c['p']) and depth < 40 and not getattr(self, '_in_trace', False):
+            from . import origins
+            self._in_trace = True
+            try:
+                lv = origins.trace(fn, c['l'], origins.norm_path(c['p']), at=getattr(self, '_site', None))
+            finally:
+                self._in_trace = False
+            if len(lv) == 1 and lv[0][0] == 'rv':
+                _, b, i, rv = lv[0]
+                sts = fn.blocks[b]['stmts']
+                if rv.get('k') == 'bin':
+                    e = self.ev_rv(rv, depth + 1, (b, i))
+                    site = getattr(self, '_site', None)
+                    if e is not None and (site is None or self.stable_between(self.mutable_atoms(e), ('def', b, i), site)):
+                        return e
+                elif i < len(sts) and sts[i]['k'] == 'assign' and not sts[i]['lhs']['p'] and fn.single_def(sts[i]['lhs']['l']) and fn.local_ty(sts[i]['lhs']['l']) in UMAX:
+                    return self.ev_place({'l': sts[i]['lhs']['l'], 'p': [], 'ty': ''}, depth + 1)
+                if rv.get('k') == 'use' and is_place(rv['op']) and not rv['op']['pl']['p'] and fn.single_def(rv['op']['pl']['l']):
+                    return self.ev_place(rv['op']['pl'], depth + 1)
         return lin(self.atom_place(pl))
 
     def ev_bin(self, op, a, b, depth):
@@ -849,6 +870,9 @@ class Analyzer:
             facts += pre(self) or []
         facts += self.inv_facts(site_block, site_idx)
         facts += list(extra)
+        vf = self.variant_facts(site_block, site_idx)
+        self._site = (site_block, site_idx)
+        facts += vf
         return facts
 
     def inv_facts(self, site_block, site_idx):
@@ -871,6 +895,62 @@ class Analyzer:
             # rule modules), so it holds at every program point of every method, whatever was written before
             if strong or self.stable_between(atoms, ('entry',), (site_block, site_idx)):
                 out.append(c)
+        return out
+
+    _VARIANTS = {'std::result::Result': ('Ok', 'Err'), 'std::option::Option': ('None', 'Some'), 'std::ops::ControlFlow': ('Continue', 'Break')}
+
+    def variant_facts(self, site_block, site_idx):
+        """A dominating branch on the discriminant of a Result / Option / ControlFlow that was built inside this function
+        (typically by an inlined helper, or before a `?`): if exactly one statement builds the variant the branch selected,
+        control passed that statement, so the facts that held there still hold as far as their inputs are unchanged."""
+        if getattr(self, '_in_variant', False):
+            return []
+        from . import origins
+        fn = self.fn
+        out = []
+        self._in_variant = True
+        try:
+            for s in fn.doms(site_block):
+                preds = [p for p in fn.preds()[s] if p in fn.idom() and not fn.dominates(s, p)]
+                if len(preds) != 1:
+                    continue
+                p = preds[0]
+                t = fn.blocks[p]['term']
+                if t['k'] != 'switch' or not is_place(t['op']) or t['op']['pl']['p']:
+                    continue
+                sd = fn.single_def(t['op']['pl']['l'])
+                if not sd or sd[2] != 'assign' or sd[3]['rv']['k'] != 'discr':
+                    continue
+                dpl = sd[3]['rv']['pl']
+                ty = fn.local_ty(dpl['l']) if not dpl['p'] else (dpl.get('ty') or '')
+                names = None
+                for pre, nm in self._VARIANTS.items():
+                    if ty.startswith(pre):
+                        names = nm
+                if names is None:
+                    continue
+                vals = [v for v, tb in t['targets'] if tb == s]
+                if len(vals) == 1 and vals[0] in (0, 1):
+                    v = vals[0]
+                elif t['otherwise'] == s and not vals and sorted(v_ for v_, tb in t['targets']) in ([0], [1]):
+                    v = 1 - t['targets'][0][0]
+                else:
+                    continue
+                leaves = origins.trace(fn, dpl['l'], origins.norm_path(dpl['p']) + [('down', names[v])], at=(sd[0], sd[1]))
+                aggs = [lf for lf in leaves if lf[0] == 'rv' and lf[3].get('k') == 'agg']
+                if len(leaves) != 1 or len(aggs) != 1:
+                    continue
+                _, b, i, _rv = aggs[0]
+                if not fn.dominates(b, site_block) and not (b in fn.can_reach([site_block])):
+                    continue
+                saved = self._site
+                fs = self.facts_at(b, i)
+                self._site = saved
+                for c in fs:
+                    if self.stable_between(self.mutable_atoms(c) | {a for a in c if a.startswith(('P:', 'len:'))}, ('def', b, i), (site_block, site_idx)):
+                        out.append(c)
+        finally:
+            self._in_variant = False
         return out
 
     def store_facts(self, site_block, site_idx):
